@@ -270,4 +270,188 @@ async def idle(n=12):
         await asyncio.sleep(0)
 
 
-SUBCHECKS = [Notifier()]
+class EndToEnd(Sub):
+    """two real SQL storages on one database file, joined by the real notifier client/server over harness-owned streams"""
+
+    name = "end-to-end"
+    examples = {"quick": 60, "thorough": 480}
+    shards = {"quick": 10, "thorough": 16}
+    rule = ("two worker storages (DBStorage, one SQLite file, run_notifier on) each with a live subscriber; operations: an "
+            "event accepted by worker A or B - optionally before that worker's notifier link is up, optionally with its COMMIT "
+            "held back while the notifier streams are pumped - pumping, releasing; oracle: every event accepted after both "
+            "links are up reaches the subscriber of EACH worker exactly once; non-trivial = an event was accepted with its "
+            "commit held while the streams were pumped, or after an early (pre-link) event")
+
+    def strategy(self, tier):
+        op = st.one_of(st.tuples(st.just("event"), st.integers(0, 1), st.booleans()).map(list), st.just(["pump"]))
+        return st.tuples(st.lists(st.integers(0, 1), max_size=2), st.lists(op, min_size=1, max_size=6)).map(list)
+
+    def run_case(self, case):
+        return H.run(self._run, case, timeout=300)
+
+    async def _run(self, case):
+        import sqlalchemy as sa
+        from sqlalchemy.util import await_only
+
+        from nostr_relay import notifier
+        from vlib import events as E
+
+        early, ops = case
+        viol = []
+        labels = []
+        nw = 2
+        c2s = [bytearray() for _ in range(nw)]
+        s2c = [bytearray() for _ in range(nw)]
+        srv_readers = [asyncio.StreamReader() for _ in range(nw)]
+        cli_readers = [asyncio.StreamReader() for _ in range(nw)]
+        order = []
+
+        async def open_connection(addr, port):
+            i = order.pop(0)
+            return cli_readers[i], FakeWriter("c%d" % i, c2s[i])
+
+        fake = types.SimpleNamespace(**{k: getattr(asyncio, k) for k in dir(asyncio) if not k.startswith("__")})
+        fake.open_connection = open_connection
+        real_asyncio = notifier.asyncio
+        notifier.asyncio = fake
+        rigs = []
+        tasks = []
+        try:
+            cfg = {"run_notifier": True}
+            ra = H.Rig("sql", config=cfg, file_db=True)
+            await ra.open()
+            rigs.append(ra)
+            order.append(0)
+            rb = H.Rig("sql", config=cfg, file_db=ra.file_db)
+            await rb.open()
+            rigs.append(rb)
+            order.append(1)
+            server = notifier.NotifyServer()
+            for i in range(nw):
+                tasks.append(asyncio.create_task(server.handle_notify(srv_readers[i], FakeWriter("s%d" % i, s2c[i]))))
+            gates = [None, None]
+
+            def hold(i):
+                def on_commit(conn):
+                    g = gates[i]
+                    if g is not None:
+                        await_only(g.wait())
+                return on_commit
+            for i, r in enumerate(rigs):
+                sa.event.listen(r.storage.db.sync_engine, "commit", hold(i))
+            subs = []
+            for i, r in enumerate(rigs):
+                c = r.conn("10.0.%d.1" % i)
+                c.feed(["REQ", "live", {"kinds": [1]}])
+                subs.append(c)
+            # the subscriptions are live (EOSE seen) before anything is published; no timer may fire meanwhile
+            for _ in range(400):
+                await spin(rigs, n=5)
+                if all(any(f[0] == "EOSE" for f in c.frames()) for c in subs):
+                    break
+            else:
+                raise H.HarnessError("subscriptions did not reach EOSE")
+
+            async def pump():
+                for _ in range(50):
+                    moved = False
+                    for w in range(nw):
+                        if c2s[w]:
+                            srv_readers[w].feed_data(bytes(c2s[w]))
+                            del c2s[w][:]
+                            moved = True
+                        if s2c[w]:
+                            cli_readers[w].feed_data(bytes(s2c[w]))
+                            del s2c[w][:]
+                            moved = True
+                    await spin(rigs)
+                    if not moved:
+                        break
+
+            n = 0
+            sent = []   # (event, must_reach_everybody)
+            # before the notifier links are up (the clients are still in their start-up sleep)
+            for w in early:
+                n += 1
+                ev = E.make(w, 1, E.T0 + n, [], "early %d" % n)
+                await rigs[w].storage.add_event(dict(ev))
+                await spin(rigs)
+                sent.append((ev, False))
+                labels.append("early-event")
+            for r in rigs:
+                await r.settle()      # lets the start-up sleep of both clients elapse: links are up
+            await pump()
+            nt = False
+            for op in ops:
+                if op[0] == "pump":
+                    await pump()
+                    continue
+                w, held = op[1], op[2]
+                n += 1
+                ev = E.make(w, 1, E.T0 + n, [], "event %d" % n)
+                if held:
+                    gates[w] = asyncio.Event()
+                    t = asyncio.create_task(rigs[w].storage.add_event(dict(ev)))
+                    await spin(rigs, wall=0.05)
+                    await pump()          # whatever was announced already travels now
+                    gates[w].set()
+                    gates[w] = None
+                    await t
+                    labels.append("commit-held")
+                    nt = True
+                else:
+                    await rigs[w].storage.add_event(dict(ev))
+                if early:
+                    nt = True
+                sent.append((ev, True))
+                await spin(rigs)
+            await pump()
+            for r in rigs:
+                await r.settle()
+            await pump()
+            for r in rigs:
+                await r.settle()
+            for i, c in enumerate(subs):
+                got = [f[2]["id"] for f in c.frames() if f[0] == "EVENT" and f[1] == "live"]
+                for ev, must in sent:
+                    k = got.count(ev["id"])
+                    if k > 1 or (must and k != 1):
+                        viol.append(V("cross-worker-delivery:%s" % ("duplicate" if k > 1 else "lost"),
+                                      "each accepted event reaches the subscribers of every worker exactly once",
+                                      worker=i, copies=k, event=ev["content"], ops=ops, early=early))
+                        break
+                if viol:
+                    break
+        finally:
+            for t in tasks:
+                t.cancel()
+            for r in rigs:
+                try:
+                    if r.storage is not None and r.storage.notifier is not None and r.storage.notifier._task is not None:
+                        r.storage.notifier._task.cancel()
+                except Exception:
+                    pass
+            for r in reversed(rigs):
+                keep = getattr(r, "_tmpdir", None)
+                try:
+                    await r.close()
+                except Exception:
+                    pass
+            notifier.asyncio = real_asyncio
+        return Result(viol, nt, labels)
+
+
+async def spin(rigs, n=40, wall=0.0):
+    """let tasks (and the database threads) make progress without jumping timers"""
+    import time as _t
+
+    t0 = _t.monotonic()
+    for _ in range(n):
+        await asyncio.sleep(0)
+        _t.sleep(0.0003)
+    while _t.monotonic() - t0 < wall:
+        await asyncio.sleep(0)
+        _t.sleep(0.0005)
+
+
+SUBCHECKS = [Notifier(), EndToEnd()]
